@@ -9,7 +9,7 @@ from core import MachineryError, PY, REPO, VERIF, Verdict, replay_histories, req
 from registry import graph_histories
 
 NAME = {"na": "vnamealpha", "nb": "vnamebeta"}
-SYM = {"sa": "vsya", "sb": "vsyb", "s c": "vs yc", "#5": 5, "na": "vnamealpha", "s~c": "vs\tyd"}
+SYM = {"sa": "vsya", "sb": "vsyb", "s c": "vs yc", "#5": 5, "na": "vnamealpha", "s~c": "vs\tyd", "so": "vsy\u2126"}
 
 
 class NamesDriver:
@@ -22,6 +22,8 @@ class NamesDriver:
         import alpha
         self.m = alpha.measured
         self.pexp = {"p7": 7, "p8": 8, "p0": 0}
+        import measured.si as si        # imported HERE, once: importing it registers the SI names and symbols
+        self.si = si
 
     def fresh_ctx(self):
         return {"obj": {}}
@@ -62,6 +64,10 @@ class NamesDriver:
                     ctx["obj"][k] = m.Prefix(10, self.pexp[k])
             elif op == "define":
                 ctx["obj"][k] = m.Length.unit(n, s)
+            elif op == "scale":
+                ctx["obj"][k] = m.Temperature.scale(5 * self.si.Kelvin, n, s)
+            elif op == "scale-q":
+                ctx["obj"][k] = m.Temperature.scale(5 * self.si.Meter, n, s)        # a zero point of another dimension
             elif op == "derive":
                 m.Unit.derive(ctx["obj"][k], n, s)
             elif op == "alias":
@@ -85,7 +91,7 @@ class NamesDriver:
         after = self._snapshot()
         tag = "%s-%s" % (c, op)
         argshape = "name=%s,symbol=%s" % ("none" if not ev["n"] else "given", "none" if not ev["s"] else ("malformed" if ev["s"] in ("s c", "#5") else "given"))
-        if out != ev["out"] and ev["s"] == "s~c" and not self._taken(ev, before, ctx):
+        if out != ev["out"] and (ev["s"] == "s~c" or op == "scale-q") and not self._taken(ev, before, ctx):
             # a questionable symbol: TLC explores both the accepting and the refusing branch; this is the other one.
             # Atomicity / faithful binding are still judged below according to what the library actually did.
             stats["maybe-branch-not-taken"] = stats.get("maybe-branch-not-taken", 0) + 1
